@@ -74,8 +74,12 @@ def materialise(root, files):
             os.makedirs(p, exist_ok=True)
         else:
             os.makedirs(os.path.dirname(p), exist_ok=True)
-            with open(p, 'w', encoding='utf-8', newline='') as f:
-                f.write(content)
+            if isinstance(content, bytes):
+                with open(p, 'wb') as f:
+                    f.write(content)
+            else:
+                with open(p, 'w', encoding='utf-8', newline='') as f:
+                    f.write(content)
 
 
 def parse_json_out(out):
